@@ -819,10 +819,75 @@ class _Alias(ast.NodeTransformer):
         return n
 
 
+class _AliasMany(ast.NodeTransformer):
+    def __init__(self, mapping):
+        self.mapping = mapping
+
+    def visit_Name(self, n):
+        if n.id in self.mapping and isinstance(n.ctx, ast.Load):
+            return ast.copy_location(copy.deepcopy(self.mapping[n.id]), n)
+        return n
+
+
+def _literal_ok(e):
+    """what may stand in place of a loop variable: an object reference, a constant, a display of constants / references"""
+    if isinstance(e, ast.Constant) or _ref_chain(e):
+        return True
+    if isinstance(e, ast.Dict):
+        return all(k is not None and isinstance(k, ast.Constant) and _literal_ok(v) for k, v in zip(e.keys, e.values))
+    if isinstance(e, (ast.Tuple, ast.List)):
+        return all(_literal_ok(x) for x in e.elts)
+    return False
+
+
+def _iterations(st, stmts, i):
+    """[{loop variable: expression}] for a loop over a literal collection of objects - a tuple / list display, a dict display's
+    .items() / .keys() / .values(), possibly through a name bound once (in this block) to the display - else None"""
+    it = st.iter
+    how = "seq"
+    if isinstance(it, ast.Call) and isinstance(it.func, ast.Attribute) and it.func.attr in ("items", "keys", "values") and not it.args and not it.keywords:
+        how, it = it.func.attr, it.func.value
+    if isinstance(it, ast.Name):
+        defs = [p.value for p in stmts[:i] if isinstance(p, ast.Assign) and len(p.targets) == 1 and isinstance(p.targets[0], ast.Name) and p.targets[0].id == it.id]
+        stores = sum(1 for p in stmts for n in ast.walk(p) if isinstance(n, ast.Name) and n.id == it.id and not isinstance(n.ctx, ast.Load))
+        mutated = any(isinstance(n, ast.Attribute) and isinstance(n.value, ast.Name) and n.value.id == it.id and n.attr in ("update", "pop", "setdefault", "append", "extend", "clear", "insert", "remove")
+                      for p in stmts for n in ast.walk(p)) or any(
+            isinstance(n, ast.Subscript) and isinstance(n.value, ast.Name) and n.value.id == it.id and not isinstance(n.ctx, ast.Load) for p in stmts for n in ast.walk(p))
+        it = defs[0] if len(defs) == 1 and stores == 1 and not mutated else None
+    if it is None:
+        return None
+    if isinstance(it, ast.Dict):
+        if any(k is None for k in it.keys) or not all(isinstance(k, ast.Constant) for k in it.keys) or not all(_literal_ok(v) for v in it.values):
+            return None
+        if how == "seq":
+            how = "keys"
+        elems = [ast.Tuple(elts=[k, v], ctx=ast.Load()) for k, v in zip(it.keys, it.values)] if how == "items" else (list(it.keys) if how == "keys" else list(it.values))
+    elif isinstance(it, (ast.Tuple, ast.List)) and how == "seq":
+        elems = list(it.elts)
+        # a loop over a literal list of plain constants stays a loop (nothing to resolve): only objects, displays and pairs are unrolled
+        if all(isinstance(e, ast.Constant) for e in elems):
+            return None
+    else:
+        return None
+    if not (1 <= len(elems) <= 6) or not all(_literal_ok(e) for e in elems):
+        return None
+    out = []
+    for e in elems:
+        if isinstance(st.target, ast.Name):
+            out.append({st.target.id: e})
+        elif isinstance(st.target, (ast.Tuple, ast.List)) and all(isinstance(x, ast.Name) for x in st.target.elts) \
+                and isinstance(e, (ast.Tuple, ast.List)) and len(e.elts) == len(st.target.elts):
+            out.append({x.id: y for x, y in zip(st.target.elts, e.elts)})
+        else:
+            return None
+    return out
+
+
 def unroll_object_loops(trees):
     """`for u in (self.a, self.b): u[k] = u[r]` writes to self.a and to self.b through an alias; the def-use engine follows names, not
-    aliases. A loop over a literal tuple / list of plain object references is replaced by one copy of its body per object, with the
-    object's reference in place of the loop variable (no break / continue / else, the variable and the references not re-bound)."""
+    aliases. A loop over a literal collection of objects (a tuple / list display, the items of a dict display) is replaced by one copy of
+    its body per element, with the element in place of the loop variable (no break / continue / else, the variables and the references
+    not re-bound, the variables not read after the loop)."""
     log = []
 
     def block(stmts, fq):
@@ -835,30 +900,22 @@ def unroll_object_loops(trees):
                     block(blk, fq)
             for hd in getattr(st, "handlers", []) or []:
                 block(hd.body, fq)
-            it = st.iter if isinstance(st, ast.For) else None
-            if isinstance(it, ast.Name):
-                # a name bound once, in this block, to a literal tuple / list
-                defs = [p.value for p in stmts[:i] if isinstance(p, ast.Assign) and len(p.targets) == 1 and isinstance(p.targets[0], ast.Name) and p.targets[0].id == it.id]
-                stores = sum(1 for p in stmts for n in ast.walk(p) if isinstance(n, ast.Name) and n.id == it.id and not isinstance(n.ctx, ast.Load))
-                it = defs[0] if len(defs) == 1 and stores == 1 else None
-            dicts = isinstance(it, (ast.Tuple, ast.List)) and it.elts and all(
-                isinstance(e, ast.Dict) and all(isinstance(k, ast.Constant) and isinstance(k.value, str) and isinstance(v_, ast.Constant) for k, v_ in zip(e.keys, e.values))
-                for e in it.elts)
-            if (isinstance(st, ast.For) and isinstance(st.target, ast.Name) and isinstance(it, (ast.Tuple, ast.List)) and not st.orelse
-                    and 1 <= len(it.elts) <= 6 and (all(_ref_chain(e) for e in it.elts) or dicts)):
-                v = st.target.id
+            its = _iterations(st, stmts, i) if isinstance(st, ast.For) and not st.orelse else None
+            if its:
+                names = set(its[0])
                 inner = [n for b in st.body for n in ast.walk(b)]
+                refs = [e for m in its for e in m.values() if _ref_chain(e)]
                 bad = any(isinstance(n, (ast.Break, ast.Continue, ast.Return, ast.FunctionDef, ast.Lambda, ast.AsyncFunctionDef, ast.Global, ast.Nonlocal)) for n in inner) \
-                    or any(isinstance(n, ast.Name) and n.id == v and not isinstance(n.ctx, ast.Load) for n in inner) \
-                    or any(isinstance(n, ast.comprehension) and any(isinstance(m, ast.Name) and m.id == v for m in ast.walk(n.target)) for n in inner) \
-                    or (not dicts and _stores_to(st.body, it.elts))
-                # the variable must not be read after the loop
-                later = [n for s_ in stmts[i + 1:] for n in ast.walk(s_) if isinstance(n, ast.Name) and n.id == v]
+                    or any(isinstance(n, ast.Name) and n.id in names and not isinstance(n.ctx, ast.Load) for n in inner) \
+                    or any(isinstance(n, ast.comprehension) and any(isinstance(m, ast.Name) and m.id in names for m in ast.walk(n.target)) for n in inner) \
+                    or (refs and _stores_to(st.body, refs))
+                later = [n for s_ in stmts[i + 1:] for n in ast.walk(s_) if isinstance(n, ast.Name) and n.id in names]
                 if not bad and not later:
                     new = []
-                    for e in it.elts:
+                    for m in its:
+                        mp = {k: _as_load(v) for k, v in m.items()}
                         for b in st.body:
-                            nb = _Alias(v, _as_load(e)).visit(copy.deepcopy(b))
+                            nb = _AliasMany(mp).visit(copy.deepcopy(b))
                             _expand_star_dicts(nb)
                             ast.fix_missing_locations(ast.copy_location(nb, b))
                             for y in ast.walk(nb):
@@ -1001,6 +1058,49 @@ def continue_guards_to_conditionals(trees):
                 fix(st.body, fq)
                 if not st.body:
                     st.body.append(ast.copy_location(ast.Pass(), st))
+
+    for m, t in trees.items():
+        for n in ast.walk(t):
+            if isinstance(n, (ast.FunctionDef, ast.AsyncFunctionDef)):
+                block(n.body, f"{m}:{n.name}")
+    return log
+
+
+# ---- conditional expressions as whole values ------------------------------------------------------------------------------------------
+def lower_conditional_values(trees):
+    """`return a if c else b` / `x = a if c else b` is `if c: return a else: return b` / `if c: x = a else: x = b`: the statement form is
+    the canonical spelling (its condition is then a branch condition the CFG and the path conditions see)."""
+    log = []
+
+    def block(stmts, fq):
+        i = 0
+        while i < len(stmts):
+            st = stmts[i]
+            if not isinstance(st, (ast.FunctionDef, ast.AsyncFunctionDef, ast.ClassDef)):
+                for fld in ("body", "orelse", "finalbody"):
+                    blk = getattr(st, fld, None)
+                    if isinstance(blk, list) and blk and isinstance(blk[0], ast.stmt):
+                        block(blk, fq)
+                for hd in getattr(st, "handlers", []) or []:
+                    block(hd.body, fq)
+            val = st.value if isinstance(st, (ast.Return, ast.Assign)) else None
+            if isinstance(val, ast.IfExp) and not any(isinstance(n, (ast.NamedExpr, ast.Yield, ast.YieldFrom, ast.Await)) for n in ast.walk(val)) \
+                    and (isinstance(st, ast.Return) or (len(st.targets) == 1 and isinstance(st.targets[0], ast.Name)
+                                                         and not any(isinstance(n, ast.Name) and n.id == st.targets[0].id for n in ast.walk(val.test)))):
+                def mk(v):
+                    new = copy.copy(st)
+                    new.value = v
+                    if isinstance(st, ast.Assign):
+                        new.targets = copy.deepcopy(st.targets)
+                    return new
+                node = ast.If(test=val.test, body=[mk(val.body)], orelse=[mk(val.orelse)])
+                ast.copy_location(node, st)
+                if hasattr(st, "_src"):
+                    node._src = st._src
+                stmts[i] = node
+                log.append((fq, getattr(st, "lineno", 0)))
+                continue  # nested conditional expressions in the branches
+            i += 1
 
     for m, t in trees.items():
         for n in ast.walk(t):
